@@ -1,5 +1,6 @@
 import OmplModel.Proofs.SpaceDistLaws
 import OmplModel.Proofs.SpaceDistDom
+import OmplModel.Proofs.SpaceDistSO3Code
 import OmplModel.Generated.Claims
 /-!
 # C06 — state-space distances obey the metric laws each space claims
@@ -119,6 +120,42 @@ theorem so3_other_laws :
     obtain ⟨x2, y2, z2, w2, rfl, _⟩ := so3_inDom_shape hb
     exact so3Dist_le_extent _ _ _ _ _ _ _ _
 example : inDom (.so3 : Space ℝ) (.so3 0 0 0 1) := by simp [inDom, unitQ]
+
+/-! ### SO(3) under the code's own in-bounds predicate (norm within 1e-9 of 1, not exactly 1) -/
+
+/-- for every pair of states the CODE accepts (slightly non-unit quaternions included): the distance is
+non-negative, symmetric, within the extent, positive between states that are not `equalStates`, and `acos` is only
+ever evaluated on `[0, 1 - 10⁻⁹]` (the clamp doubles as the domain guard: no NaN, whatever the norms).
+`_partial`: zero distance to itself and the triangle inequality are missing — see `so3_code_inbounds_self_fails`,
+`so3_triangle_fails`. -/
+theorem so3_code_inbounds_laws_partial (a b : St ℝ) (ha : satisfiesBounds (.so3 : Space ℝ) a = true)
+    (hb : satisfiesBounds (.so3 : Space ℝ) b = true) :
+    0 ≤ SpaceDist.dist (.so3 : Space ℝ) a b ∧
+    SpaceDist.dist (.so3 : Space ℝ) a b = SpaceDist.dist .so3 b a ∧
+    SpaceDist.dist (.so3 : Space ℝ) a b ≤ maxExtent (.so3 : Space ℝ) ∧
+    (equalStates (.so3 : Space ℝ) a b = false → 0 < SpaceDist.dist (.so3 : Space ℝ) a b) ∧
+    (SpaceDist.dist (.so3 : Space ℝ) a b = 0 ∨
+      ∃ t : ℝ, 0 ≤ t ∧ t ≤ 1 - 1 / 10 ^ 9 ∧ SpaceDist.dist (.so3 : Space ℝ) a b = Real.arccos t) := by
+  obtain ⟨x1, y1, z1, w1, rfl, _⟩ := so3_code_shape ha
+  obtain ⟨x2, y2, z2, w2, rfl, _⟩ := so3_code_shape hb
+  refine ⟨so3Dist_nonneg _ _ _ _ _ _ _ _, so3Dist_symm _ _ _ _ _ _ _ _, so3Dist_le_extent _ _ _ _ _ _ _ _,
+    fun hne => so3Dist_pos hne, ?_⟩
+  rcases so3Dist_acos_arg x1 y1 z1 w1 x2 y2 z2 w2 with ⟨_, h0⟩ | ⟨h1, h2, h3⟩
+  · exact Or.inl h0
+  · exact Or.inr ⟨_, h1, h2, h3⟩
+example : satisfiesBounds (.so3 : Space ℝ) (.so3 0 0 0 wq) = true := wq_inBounds
+
+/-- F27: the quaternion `(0,0,0,1-7.5·10⁻¹⁰)` satisfies the code's bounds (norm within 1e-9 of 1) but its squared
+norm `1-1.5·10⁻⁹` is below the clamp threshold `1-10⁻⁹`: its distance to ITSELF is `acos(n²) ≈ 5.5e-5 ≥ ε`, and it is
+not `equalStates` to itself. -/
+theorem so3_code_inbounds_self_fails :
+    ¬ (∀ a : St ℝ, satisfiesBounds (.so3 : Space ℝ) a = true →
+        SpaceDist.dist (.so3 : Space ℝ) a a = 0 ∧ equalStates (.so3 : Space ℝ) a a = true) := by
+  intro h
+  have := (h (.so3 0 0 0 wq) wq_inBounds).2
+  simp only [equalStates] at this
+  rw [wq_not_equal_self] at this
+  exact absurd this (by simp)
 
 /-! ## Möbius strip, Klein bottle, sphere (F6, F12) -/
 
@@ -244,11 +281,14 @@ theorem zero_weight_ignored (h t : Space ℝ) (ht : isCList t = true) (a1 a2 b1 
   rw [dist_ccons 0 h t ht]; simp
 
 /-- the exact domain of the theorems above lies inside what the code's `satisfiesBounds` accepts (which adds
-ε = 2⁻⁵² around boxes and time bounds, 1e-9 around the unit quaternions): Rⁿ, SO(2), SO(3), time, discrete, torus
-leaves under any nesting of compounds and wrappers. -/
+ε = 2⁻⁵² around boxes and time bounds, 1e-9 around the unit quaternions): every modelled leaf (Rⁿ, SO(2), SO(3), time,
+discrete, torus, Möbius, Klein bottle, sphere) under any nesting of compounds and wrappers. -/
 theorem domain_inside_code_bounds (sp : Space ℝ) (h : AllLeaves (fun _ => True) CodeLeaf sp) (a : St ℝ)
     (ha : inDom sp a) : satisfiesBounds sp a = true := inDom_satisfiesBounds sp h a ha
 example : AllLeaves (fun _ => True) CodeLeaf (.ccons 1 (.rv [0] [1]) (.ccons 1 .so3 .cnil) : Space ℝ) := by
+  simp [AllLeaves, CodeLeaf, isCList]
+example : AllLeaves (fun _ => True) CodeLeaf
+    (.ccons 2 (.mobius 1 1) (.ccons 1 .klein (.ccons 1 (.wrap (.sphere 3)) .cnil)) : Space ℝ) := by
   simp [AllLeaves, CodeLeaf, isCList]
 
 /-! ## what the code claims (generated by running it) is covered -/
